@@ -175,6 +175,18 @@ def expsOk (m : AstMap) (pp : Path) (p : T) : Bool :=
 def singleIdent (m : AstMap) : Bool :=
   m.binds.all fun a => m.binds.all fun b => a.key ≠ b.key || a.id = b.id
 
+mutual
+/-- shape assumption on PATTERN trees used by the theorems (true of every `ast` tree; the driver checks
+it on every request): the operator nodes `Add` / `Mult` have no children -/
+def opLeaves (t : T) : Bool :=
+  match t with
+  | .mk k _ _ kids => (!(k = "Add" || k = "Mult") || kids.isEmpty) && opLeavesL kids
+def opLeavesL (ts : List T) : Bool :=
+  match ts with
+  | [] => true
+  | t :: rest => opLeaves t && opLeavesL rest
+end
+
 /-- C10's first sentence for one returned match -/
 def checkMatch (p s : T) (m : AstMap) (root : Option Path) : Bool :=
   let pr := stripWrappers p []
